@@ -20,6 +20,7 @@ type RunOpts struct {
 	Quiet                                        bool
 	Overlay                                      map[string][]byte
 	NoEvidence                                   bool
+	NoReplay                                     bool
 }
 
 type Baseline struct {
@@ -274,6 +275,11 @@ func RunCheck(opts RunOpts, t0 time.Time) (*Outcome, error) {
 				undecided = append(undecided, o.Name+": "+r.Raw)
 				continue
 			}
+			out.FailedNames = append(out.FailedNames, o.Name)
+			if opts.NoReplay {
+				out.Violations++
+				continue
+			}
 			path, reproduced := writeReplay(opts, replayDir, prop, r, e)
 			suffix := ""
 			if !reproduced {
@@ -282,7 +288,6 @@ func RunCheck(opts RunOpts, t0 time.Time) (*Outcome, error) {
 			out.Lines = append(out.Lines, fmt.Sprintf("VIOLATION property=%s replay=%s%s", prop, path, suffix))
 			out.Lines = append(out.Lines, fmt.Sprintf("  obligation %s (%s) at %s: %s — %s", o.Name, o.Kind, o.Pos, r.Raw, o.Detail))
 			out.Violations++
-			out.FailedNames = append(out.FailedNames, o.Name)
 			continue
 		}
 		out.Lines = append(out.Lines, fmt.Sprintf("UNDECIDED obligation=%s reason=%s (not in the baseline of discharged obligations)", o.Name, r.Raw))
